@@ -95,24 +95,23 @@ def tipOrders (b : Book) (hintFirst : List Hash) : List (List Hash) :=
   let rest := ls.filter fun h => !hintFirst.contains h
   [first ++ rest, first ++ rest.reverse, rest ++ first, ls, ls.reverse]
 
-/-- The observed stream is, for some tip order, each tip followed by its not yet streamed ancestors
-(in any sibling order — the walker's order among siblings is Go map order). -/
-def streamMatches (b : Book) (order : List Hash) (ns : List Nat) : Bool :=
-  let rec go (tips : List Hash) (rest : List Nat) (visited : List Hash) (fuel : Nat) : Bool :=
-    match fuel, tips with
+/-- The observed stream is: a tip, followed by its not yet streamed ancestors (in any sibling order —
+the walker's order among siblings is Go map order), then the next tip, … until every tip was streamed
+exactly once. The tip order is read off the stream itself. -/
+def streamMatches (b : Book) (ns : List Nat) : Bool :=
+  let tips := b.leaves.map (·.hash)
+  let rec go (rest : List Nat) (visited doneTips : List Hash) (fuel : Nat) : Bool :=
+    match fuel, rest with
     | 0, _ => false
-    | _, [] => rest.isEmpty
-    | fuel + 1, l :: ts =>
-      match rest with
-      | [] => false
-      | x :: rest' =>
-        if x != l then false else
-        let anc := (b.ancestors l).filter (!visited.contains ·)
-        let seg := rest'.take anc.length
-        if seg.length == anc.length && seg.all anc.contains && anc.all seg.contains then
-          go ts (rest'.drop anc.length) (visited ++ anc) fuel
-        else false
-  go order ns [] (order.length + 1)
+    | _, [] => tips.all doneTips.contains
+    | fuel + 1, x :: rest' =>
+      if !tips.contains x || doneTips.contains x then false else
+      let anc := (b.ancestors x).filter (!visited.contains ·)
+      let seg := rest'.take anc.length
+      if seg.length == anc.length && seg.all anc.contains && anc.all seg.contains then
+        go (rest'.drop anc.length) (visited ++ anc) (x :: doneTips) fuel
+      else false
+  go ns [] [] (tips.length + 1)
 
 def parseTrx (ts : List String) : Option Trx :=
   match ts with
@@ -182,7 +181,7 @@ def candidates (s : St) (b : Book) (op : List String) (res : String) (obs : List
   | ["STREAM", _, names] => do
     let ns ← natList names
     -- any tip order: the stream must be some `streamDag b order`
-    let ok := (tipOrders b []).any fun o => streamMatches b o ns
+    let ok := streamMatches b ns
     some ("stream", [(b, if ok then "ok" else "stream-order-not-reproducible")])
   | ["LOAD", _, names] => do
     let ns ← natList names
